@@ -45,7 +45,7 @@ void harness (void)
     {
       int gi = (int) sx_param ("grammar", 0), maxlen = (int) sx_param ("maxlen", 2), nt, len, next = 256, idx[8], one;
       g_select (&catalogue[gi]);
-      g_style = sx_choice ("style", 4); g_use_sem = sx_choice ("sem", 2); g_comment = sx_choice ("comment", 2);
+      g_style = sx_choice ("style", 4); g_use_sem = sx_choice ("sem", 2); g_comment = sx_choice ("comment", 4); g_omit_cost = sx_choice ("omit_cost", 2);
       g_ws = (char) sx_range ("ws", 9, 32);
       sx_assume (g_ws == ' ' || g_ws == '\t' || g_ws == '\n');
       g_describe (text);
